@@ -631,6 +631,108 @@ def readerOf (c : Cfg) (s : Store) : Except Err ReaderState := Reader.open c s
 def queryKey (c : Cfg) (q : QueryOpts) (by_ : String) : String :=
   s!"{c.index} {by_} {q.count} {q.oversampling} {q.candidates}"
 
+/-- a finite binary32 as an exact integer multiple of 2^-149·2^… : (signed mantissa, exponent) -/
+def exactOf (x : Nat) : Option (Int × Int) :=
+  match SF.unpack SF.f32 x with
+  | .fin neg m e => some (if neg then -(m : Int) else (m : Int), e)
+  | _ => none
+
+/-- Σ aᵢ·bᵢ (or Σ (aᵢ-bᵢ)²) exactly, as numerator over 2^300, with Σ |terms| -/
+def exactSum (terms : List ((Int × Int) × (Int × Int))) (euclid : Bool) : Int × Int :=
+  -- scale everything to the common exponent -300 (binary32 exponents are ≥ -149, products ≥ -298)
+  let sc (v : Int × Int) : Int := v.1 * (2 : Int) ^ ((v.2 + 150).toNat)      -- value · 2^150
+  terms.foldl (fun (acc : Int × Int) (p : (Int × Int) × (Int × Int)) =>
+    let a := sc p.1
+    let b := sc p.2
+    let t := if euclid then (a - b) * (a - b) else a * b                       -- value · 2^300
+    (acc.1 + t, acc.2 + t.natAbs)) (0, 0)
+
+/-- is the implementation's result within the rounding error bound of the exact sum? -/
+def withinTolerance (n : Nat) (exact absSum : Int) (impl : Nat) : Bool :=
+  match exactOf impl with
+  | none => true     -- overflow / NaN: not judged here
+  | some v =>
+    let got := v.1 * (2 : Int) ^ ((v.2 + 300).toNat)                           -- value · 2^300
+    -- |got - exact| ≤ (n + 2)·2^-23·Σ|terms| + (n + 2)·2^-149  (all scaled by 2^300)
+    let tol := (absSum * (n + 2)) / (2 : Int) ^ 23 + (n + 2) * (2 : Int) ^ 151
+    (got - exact).natAbs ≤ tol.natAbs
+
+/-- value · 2^150 of a finite binary32 -/
+def scaled150 (v : Int × Int) : Int := v.1 * (2 : Int) ^ ((v.2 + 150).toNat)
+
+/-- **the metric's definition, evaluated exactly** (C11 / C12): is the reported distance `rep` of the vectors
+`a`, `b` what the definition gives, within the rounding error of single-precision summation? `none` = not
+judged (non-finite operands or result, or magnitudes where products under/overflow); `some msg` = it is not.
+Everything is integer arithmetic on exact values scaled by powers of two; the bounds are twice the standard
+`γ_n` bounds, so a correct implementation (any summation order, with or without FMA) never exceeds them. -/
+def definitionOracle (m : Metric) (a b : List Nat) (rep : Nat) : Option (Option String) :=
+  let n := a.length
+  if m.isBq then
+    -- C12: 4h/d, 2h/d, h/D64 with h the number of differing signs
+    let h := (List.zip a b).countP fun (x, y) => (decide (x ≥ 2^31)) != (decide (y ≥ 2^31))
+    match exactOf rep with
+    | none => some (some "the quantised distance is not a finite number")
+    | some r =>
+      let R := scaled150 r                                    -- value · 2^150
+      let (num, den) : Nat × Nat := match m with
+        | .bqEuclidean => (4 * h, n)
+        | .bqManhattan => (2 * h, n)
+        | _ => (h, 64 * ((n + 63) / 64))
+      if den = 0 then none else
+      -- |R/2^150 − num/den| ≤ 2^-21 · num/den  (three roundings at most), exact when num = 0; the cosine value is
+      -- (1 − (D − 2h)/D)/2: the rounding of the quotient near 1 is an ABSOLUTE error of 2^-24 on the result
+      let lhs : Nat := (R * (den : Int) - (num : Int) * (2 : Int) ^ 150).natAbs * 2 ^ 21
+      let rhs : Nat := num * 2 ^ 150 + (if m == .bqCosine && num != 0 then den * 2 ^ (150 - 1) else 0)
+      if lhs ≤ rhs then some none
+      else some (some s!"{h} differing signs at dimension {n}: the definition gives {num}/{den}")
+  else
+  match a.mapM exactOf, b.mapM exactOf, exactOf rep with
+  | some ea, some eb, some r =>
+    let sa := ea.map scaled150
+    let sb := eb.map scaled150
+    let R := scaled150 r
+    let pairs := List.zip sa sb
+    match m with
+    | .euclidean =>
+      let E : Int := pairs.foldl (fun acc (x, y) => acc + (x - y) * (x - y)) 0         -- value · 2^300
+      if E > (2 : Int) ^ 420 then none else
+      let tol : Int := E * ((n : Int) + 8) / (2 : Int) ^ 22 + ((n : Int) + 8) * (2 : Int) ^ 152
+      if (R * R - E).natAbs ≤ tol.natAbs then some none
+      else some (some "sqrt(sum (a-b)^2) evaluated exactly is further away than the summation error bound")
+    | .manhattan =>
+      let M : Int := pairs.foldl (fun acc (x, y) => acc + ((x - y).natAbs : Int)) 0    -- value · 2^150
+      if M > (2 : Int) ^ 270 then none else
+      let tol : Int := M * ((n : Int) + 4) / (2 : Int) ^ 23 + ((n : Int) + 4) * 4
+      if (R - M).natAbs ≤ tol.natAbs then some none
+      else some (some "sum |a-b| evaluated exactly is further away than the summation error bound")
+    | .dot =>
+      let (exact, absSum) := exactSum (List.zip ea eb) false
+      if absSum > (2 : Int) ^ 420 then none else
+      if withinTolerance n exact absSum rep then some none
+      else some (some "the inner product evaluated exactly is further away than the summation error bound")
+    | _ =>
+      -- cosine: (1 − cos)/2, 0 when a norm vanishes
+      let A : Int := sa.foldl (fun acc x => acc + x * x) 0
+      let B : Int := sb.foldl (fun acc x => acc + x * x) 0
+      let P : Int := pairs.foldl (fun acc (x, y) => acc + x * y) 0
+      if A = 0 ∨ B = 0 then
+        if rep = 0 ∨ rep = 0x80000000 then some none
+        else some (some "a norm vanishes: the distance must be 0")
+      else if A < (2 : Int) ^ 260 ∨ B < (2 : Int) ^ 260 ∨ A > (2 : Int) ^ 340 ∨ B > (2 : Int) ^ 340 then none
+      else
+        let N : Int := ((A * B).toNat.sqrt : Nat)                                        -- |a||b| · 2^300
+        let C : Int := (2 : Int) ^ 150 - 2 * R                                           -- cos · 2^150
+        let lhs : Nat := (C * N - P * (2 : Int) ^ 150).natAbs * 2 ^ 22
+        let rhs : Nat := (N * (2 : Int) ^ 150 * ((n : Int) + 8)).natAbs + 2 ^ 180
+        -- the code answers 0 when the product of the norms does not exceed f32::EPSILON = 2^-23 (DESIGN.md O1)
+        let tinyNorms : Bool := N ≤ (2 : Int) ^ 278
+        if tinyNorms && (rep = 0 ∨ rep = 0x80000000) then some none
+        else if R < 0 ∨ R > (2 : Int) ^ 150 then some (some "the cosine distance is outside [0, 1]")
+        else if lhs ≤ rhs then some none
+        else some (some "(1 - cos)/2 evaluated exactly is further away than the rounding error bound")
+  | _, _, _ => none
+
+
 def checkQuery (d : DState) (c : Cfg) (s : Store) (rd : ReaderState) (q : QueryOpts) (by_ : String)
     (qh qv : List Nat) (ans : List (Nat × Nat)) : DState := Id.run do
   let mut d := d
@@ -772,6 +874,24 @@ def handleOp (d : DState) (p : Pending) (res : List String) : DState := Id.run d
           match parseAns? items with
           | some implAns =>
             d := checkQuery d cr s rd q by_ qh qv implAns
+            -- C11 / C12 end to end: every reported distance against the metric's DEFINITION, evaluated exactly on the
+            -- vectors AS WRITTEN (the specification replayed from the operations), not on what the database holds
+            let qWritten : Option (List Nat) :=
+              if by_.startsWith "vec:" then parseVec? (by_.drop 4).toString
+              else (parseNat? (by_.drop 5).toString) >>= fun x => specGet d c.index x
+            match qWritten with
+            | some qw =>
+              for (id, dist) in implAns do
+                match specGet d c.index id with
+                | some w =>
+                  if w.length == qw.length then
+                    match definitionOracle c.metric qw w dist with
+                    | some (some msg) =>
+                      d := d.prop (if c.metric.isBq then "C12" else "C11") s!"query {by_.take 60}: item {id} is reported at {hex8 dist}: {msg} (item written as {vecStr (w.take 8)}…)"
+                    | some none => d := { d with nDefChecked := d.nDefChecked + 1 }
+                    | none => pure ()
+                | none => pure ()
+            | none => pure ()
             -- C04 self lookup
             if by_.startsWith "item:" && q.candidates.isNone && Reader.budget c.metric rd.roots.length q == 1 then
               match parseNat? (by_.drop 5).toString with
@@ -913,104 +1033,6 @@ def handleOp (d : DState) (p : Pending) (res : List String) : DState := Id.run d
 
 
 /-! ### kernel, quantisation and key records -/
-
-/-- a finite binary32 as an exact integer multiple of 2^-149·2^… : (signed mantissa, exponent) -/
-def exactOf (x : Nat) : Option (Int × Int) :=
-  match SF.unpack SF.f32 x with
-  | .fin neg m e => some (if neg then -(m : Int) else (m : Int), e)
-  | _ => none
-
-/-- Σ aᵢ·bᵢ (or Σ (aᵢ-bᵢ)²) exactly, as numerator over 2^300, with Σ |terms| -/
-def exactSum (terms : List ((Int × Int) × (Int × Int))) (euclid : Bool) : Int × Int :=
-  -- scale everything to the common exponent -300 (binary32 exponents are ≥ -149, products ≥ -298)
-  let sc (v : Int × Int) : Int := v.1 * (2 : Int) ^ ((v.2 + 150).toNat)      -- value · 2^150
-  terms.foldl (fun (acc : Int × Int) (p : (Int × Int) × (Int × Int)) =>
-    let a := sc p.1
-    let b := sc p.2
-    let t := if euclid then (a - b) * (a - b) else a * b                       -- value · 2^300
-    (acc.1 + t, acc.2 + t.natAbs)) (0, 0)
-
-/-- is the implementation's result within the rounding error bound of the exact sum? -/
-def withinTolerance (n : Nat) (exact absSum : Int) (impl : Nat) : Bool :=
-  match exactOf impl with
-  | none => true     -- overflow / NaN: not judged here
-  | some v =>
-    let got := v.1 * (2 : Int) ^ ((v.2 + 300).toNat)                           -- value · 2^300
-    -- |got - exact| ≤ (n + 2)·2^-23·Σ|terms| + (n + 2)·2^-149  (all scaled by 2^300)
-    let tol := (absSum * (n + 2)) / (2 : Int) ^ 23 + (n + 2) * (2 : Int) ^ 151
-    (got - exact).natAbs ≤ tol.natAbs
-
-/-- value · 2^150 of a finite binary32 -/
-def scaled150 (v : Int × Int) : Int := v.1 * (2 : Int) ^ ((v.2 + 150).toNat)
-
-/-- **the metric's definition, evaluated exactly** (C11 / C12): is the reported distance `rep` of the vectors
-`a`, `b` what the definition gives, within the rounding error of single-precision summation? `none` = not
-judged (non-finite operands or result, or magnitudes where products under/overflow); `some msg` = it is not.
-Everything is integer arithmetic on exact values scaled by powers of two; the bounds are twice the standard
-`γ_n` bounds, so a correct implementation (any summation order, with or without FMA) never exceeds them. -/
-def definitionOracle (m : Metric) (a b : List Nat) (rep : Nat) : Option (Option String) :=
-  let n := a.length
-  if m.isBq then
-    -- C12: 4h/d, 2h/d, h/D64 with h the number of differing signs
-    let h := (List.zip a b).countP fun (x, y) => (decide (x ≥ 2^31)) != (decide (y ≥ 2^31))
-    match exactOf rep with
-    | none => some (some "the quantised distance is not a finite number")
-    | some r =>
-      let R := scaled150 r                                    -- value · 2^150
-      let (num, den) : Nat × Nat := match m with
-        | .bqEuclidean => (4 * h, n)
-        | .bqManhattan => (2 * h, n)
-        | _ => (h, 64 * ((n + 63) / 64))
-      if den = 0 then none else
-      -- |R/2^150 − num/den| ≤ 2^-21 · num/den  (three roundings at most), exact when num = 0
-      let lhs : Nat := (R * (den : Int) - (num : Int) * (2 : Int) ^ 150).natAbs * 2 ^ 21
-      let rhs : Nat := num * 2 ^ 150
-      if lhs ≤ rhs then some none
-      else some (some s!"{h} differing signs at dimension {n}: the definition gives {num}/{den}")
-  else
-  match a.mapM exactOf, b.mapM exactOf, exactOf rep with
-  | some ea, some eb, some r =>
-    let sa := ea.map scaled150
-    let sb := eb.map scaled150
-    let R := scaled150 r
-    let pairs := List.zip sa sb
-    match m with
-    | .euclidean =>
-      let E : Int := pairs.foldl (fun acc (x, y) => acc + (x - y) * (x - y)) 0         -- value · 2^300
-      if E > (2 : Int) ^ 420 then none else
-      let tol : Int := E * ((n : Int) + 8) / (2 : Int) ^ 22 + ((n : Int) + 8) * (2 : Int) ^ 152
-      if (R * R - E).natAbs ≤ tol.natAbs then some none
-      else some (some "sqrt(sum (a-b)^2) evaluated exactly is further away than the summation error bound")
-    | .manhattan =>
-      let M : Int := pairs.foldl (fun acc (x, y) => acc + ((x - y).natAbs : Int)) 0    -- value · 2^150
-      if M > (2 : Int) ^ 270 then none else
-      let tol : Int := M * ((n : Int) + 4) / (2 : Int) ^ 23 + ((n : Int) + 4) * 4
-      if (R - M).natAbs ≤ tol.natAbs then some none
-      else some (some "sum |a-b| evaluated exactly is further away than the summation error bound")
-    | .dot =>
-      let (exact, absSum) := exactSum (List.zip ea eb) false
-      if absSum > (2 : Int) ^ 420 then none else
-      if withinTolerance n exact absSum rep then some none
-      else some (some "the inner product evaluated exactly is further away than the summation error bound")
-    | _ =>
-      -- cosine: (1 − cos)/2, 0 when a norm vanishes
-      let A : Int := sa.foldl (fun acc x => acc + x * x) 0
-      let B : Int := sb.foldl (fun acc x => acc + x * x) 0
-      let P : Int := pairs.foldl (fun acc (x, y) => acc + x * y) 0
-      if A = 0 ∨ B = 0 then
-        if rep = 0 ∨ rep = 0x80000000 then some none
-        else some (some "a norm vanishes: the distance must be 0")
-      else if A < (2 : Int) ^ 260 ∨ B < (2 : Int) ^ 260 ∨ A > (2 : Int) ^ 340 ∨ B > (2 : Int) ^ 340 then none
-      else
-        let N : Int := ((A * B).toNat.sqrt : Nat)                                        -- |a||b| · 2^300
-        let C : Int := (2 : Int) ^ 150 - 2 * R                                           -- cos · 2^150
-        let lhs : Nat := (C * N - P * (2 : Int) ^ 150).natAbs * 2 ^ 22
-        let rhs : Nat := (N * (2 : Int) ^ 150 * ((n : Int) + 8)).natAbs + 2 ^ 180
-        if R < 0 ∨ R > (2 : Int) ^ 150 then some (some "the cosine distance is outside [0, 1]")
-        else if lhs ≤ rhs then some none
-        else some (some "(1 - cos)/2 evaluated exactly is further away than the rounding error bound")
-  | _, _, _ => none
-
 
 def kernelModel (h : Host) (name : String) (a b : List Nat) : Option Nat :=
   match name with
